@@ -13,7 +13,7 @@ All theorems are about the model Ymq/Model/Gf2Small.lean (tied to the code by th
 -/
 import Ymq.Lemmas.Gf2SmallCallsite
 import Ymq.Lemmas.Gf2SmallInverse
-import Ymq.Lemmas.Gf2SmallLoopBase
+import Ymq.Lemmas.Gf2SmallLoopRun
 import Ymq.Model.Gf2Genblock
 
 namespace Ymq.C14Small
@@ -424,7 +424,8 @@ theorem lanczos_step_no_panic_checked (k : Nat) (cols : List (List Nat)) (Y0 ay 
     (hInv : LInv k cols Y0 st hist Ss)
     (h3 : ∀ next0, Direction k cols st next0 → ∀ j, j < st.ws.length →
       ¬ Projected st.ws st.masks st.ws.length j → Q k cols (hist.getD j []) next0 = 0) :
-    (∃ st', lanczosStep true (qsOptimize k cols) ay st = .finished st') ∨
+    (∃ st', lanczosStep true (qsOptimize k cols) ay st = .finished st' ∧ st'.y = st.y ∧
+      ∀ w ∈ st'.ws, w.isEmpty = false → ∃ j : Nat, st.ws[j]? = some w) ∨
     (∃ st' mk w, lanczosStep true (qsOptimize k cols) ay st = .continue st' mk ∧
       LInv k cols Y0 st' (hist ++ [w]) (Ss ++ [mk])) :=
   lanczosStep_checked_ok hM hay hayOK hInv h3
@@ -453,6 +454,37 @@ theorem lanczos_invariant (k : Nat) (cols : List (List Nat)) (Y0 : List Nat) (st
   intro j w hw hne
   obtain ⟨e, ig, hig, hK⟩ := hInv.kept j w hw hne
   exact ⟨e, ig, hig, hK.inv, hK.right_inv⟩
+
+open Ymq.Gf2Lanczos Ymq.Gf2 in
+/-- LOOP LEVEL, release profile: from the block `Y0` of `genblock` (one 64-bit word per column) on a
+well-formed matrix, when the initial computation returns, the main loop with fuel reaches no panic site:
+if `lanczosLoop false` answers `none` it ran out of fuel after `fuel` iterations that all continued
+(`IterN`), so every iteration of a release run is panic free. -/
+theorem lanczos_loop_no_panic_release (k : Nat) (cols : List (List Nat)) (Y0 ay : List Nat) (st : LState)
+    (fuel : Nat) (acc : List (Nat × List Nat × List Nat)) (hM : MatOK k cols) (hY0 : BlockOK cols.length Y0)
+    (h : lanczosInit false (qsOptimize k cols) Y0 = some (st, ay))
+    (hnone : lanczosLoop false (qsOptimize k cols) ay fuel st acc = none) :
+    ∃ st', IterN false (qsOptimize k cols) ay fuel st st' := by
+  obtain ⟨hwf, hay⟩ := lanczosInit_wf hM false hY0 h
+  exact lanczosLoop_release hM hay fuel st acc hwf hnone
+
+open Ymq.Gf2Lanczos Ymq.Gf2 in
+/-- LOOP LEVEL, checked profile, up to the first purge: from the block `Y0` of `genblock`, the checked
+loop — every `debug_assert!` of every iteration on A-orthogonality and on the rank, and the assertions
+after the loop — reaches no panic site as long as every block of the history is still projected
+(`AllProjected`: no block purged or consumed): if `lanczosLoop true` answers `none`, it either ran out of
+fuel after `fuel` continuing iterations, or it reached, WITHOUT panic and with the invariant `LInv` still
+holding, a state where some block is no longer projected. Beyond that point the three-term property of
+the purged blocks is needed (`lanczos_step_no_panic_checked`, hypothesis `h3`). -/
+theorem lanczos_loop_no_panic_unpurged (k : Nat) (cols : List (List Nat)) (Y0 ay : List Nat) (st : LState)
+    (fuel : Nat) (acc : List (Nat × List Nat × List Nat)) (hM : MatOK k cols) (hY0 : BlockOK cols.length Y0)
+    (h : lanczosInit true (qsOptimize k cols) Y0 = some (st, ay))
+    (hnone : lanczosLoop true (qsOptimize k cols) ay fuel st acc = none) :
+    (∃ st', IterN true (qsOptimize k cols) ay fuel st st') ∨
+    (∃ n st' hist' Ss', n ≤ fuel ∧ IterN true (qsOptimize k cols) ay n st st' ∧ LInv k cols Y0 st' hist' Ss' ∧
+      ¬ AllProjected st') := by
+  obtain ⟨hay, hInv⟩ := lanczosInit_inv hM true hY0 h
+  exact lanczosLoop_checked_unpurged hM hay (lanczosInit_wf hM true hY0 h).2 fuel st _ _ acc hInv hnone
 
 /-! ### non-vacuity and counter-witnesses (small sizes: the theorems hold for every `n`; the same
 matrices padded with null rows to 64x64 are corpus requests of the K/O streams) -/
